@@ -288,7 +288,7 @@ impl World {
         self.regions.insert(start, Region { end: start + len, prot, owner, data, serial });
     }
 
-    fn split_at(&mut self, addr: u64) {
+    pub fn split_at(&mut self, addr: u64) {
         let found = match self.region_at(addr) {
             Some((s, _)) if s != addr => Some(s),
             _ => None,
